@@ -25,6 +25,7 @@ CFG = {
     'F': ({'t1': ['shell'], 't2': tour.LIST2}, {'t1': [[1, 2]], 't2': [[1, 2]]}),
     'G': ({'t1': ['flush', 'readw', 'clse'], 't2': ['flush', 'readw', 'clse']}, {'t1': [[1]], 't2': [[1]]}),
     'H': ({'t1': ['shell'], 't2': tour.PUSH2}, {'t1': [[]], 't2': [[], [1]]}),
+    'I': ({'t1': ['flush', 'readw', 'clse'], 't2': tour.PUSH2}, {'t1': [[1]], 't2': [[], [1]]}),
 }
 INV = ('MonitorOK', 'Complete', 'NoCrossTalk', 'NoStuck', 'LockDiscipline')
 
@@ -34,11 +35,12 @@ def expected_value(p, t, replies):
         return b''.join(tour.payload_of(t, i) for i in replies[t][0])
     if p == []:
         return None
+    i = sorted(replies).index(t)
     if p == tour.LIST2:
-        return []
+        return [(('e-' + t).encode(), i + 1, 10 + i, 100 + i)]
     if p in (tour.PUSH2, tour.PUSH2FAIL):
         return None
-    return (0, 0, 0)
+    return (0o100000 + i + 1, 11 * (i + 1), 1000 + i)
 
 
 def design(ctx, names, k1_open, f5_open):
@@ -100,7 +102,7 @@ def do_explore(ctx, rng, n, names, modes):
     for (name, mode), seeds in by.items():
         prog, rep = CFG[name]
         for seed in seeds:
-            res = tour.explore(mode, prog, rep, 1, random.Random(seed))
+            res = tour.explore(mode, prog, rep, 1, random.Random(seed), write_yield=(seed % 3 == 0))
             tr, info = res[0]
             info.update(config=name, mode=mode, seed=seed)
             traces.append(tr)
@@ -120,7 +122,10 @@ def do_explore(ctx, rng, n, names, modes):
             for t, p in prog.items():
                 res = info['results'].get(t)
                 want = expected_value(p, t, rep)
-                if res is None or res[0] != 'ret' or (p != ['shell'] and (list(res[1]) if isinstance(res[1], (list, tuple)) and p == tour.LIST2 else res[1]) != want):
+                got = res[1] if res else None
+                if p == tour.LIST2 and isinstance(got, list):
+                    got = [(bytes(x[0]), x[1], x[2], x[3]) for x in got]
+                if res is None or res[0] != 'ret' or (p != ['shell'] and got != want):
                     if p in ([],) and res and res[0] == 'ret':
                         continue
                     bad = (t, repr(res), repr(want))
@@ -164,7 +169,7 @@ def body(ctx):
     if not ctx.quick:
         do_tour(ctx, 'C', k1, f5, ['sync', 'async'])
         do_tour(ctx, 'B', k1, f5, ['sync', 'async'])
-    do_explore(ctx, rng, 600 if ctx.quick else 20000, ['A', 'B', 'C', 'D', 'F', 'G'] if ctx.quick else ['A', 'B', 'C', 'D', 'E', 'F', 'G', 'H'], ['sync', 'async'])
+    do_explore(ctx, rng, 700 if ctx.quick else 20000, ['A', 'B', 'C', 'D', 'F', 'G', 'I'] if ctx.quick else ['A', 'B', 'C', 'D', 'E', 'F', 'G', 'H', 'I'], ['sync', 'async'])
     ctx.assumptions += ['preemption only at lock acquisitions and at the first bulk_read of a frame (the critical sections of the design spec)',
                         'device conforms to the Env model; it picks any ready stream next',
                         'design conformance (tour) is informative: a mismatch is reported as DESIGN-DRIFT, verdicts come only from TraceEnv clauses']
